@@ -106,6 +106,31 @@ func genLongRun(seed uint64, j int) (spec.Run, c10Meta) {
 		c10Meta{Shape: "long-run", TS: []string{ts}}
 }
 
+// genParamLeak builds the enumerated "settings must not leak" history of one codec: a stream
+// made with private non-default settings is decoded with nil parameters (and once with a fresh
+// default object), and the calls with nil / fresh default parameters that follow must return
+// what they return in a fresh world. A codec that caches the parameters object it creates for
+// a nil argument, or keeps what a Decode learned from a stream, fails I1 here.
+func genParamLeak(seed uint64, j int) (spec.Run, c10Meta) {
+	r := spec.NewRng(seed).Child(7)
+	ts := allTS[j%len(allTS)]
+	in := genInfo(r, ts, genOpt{maxDim: 16})
+	fs, fs2 := genFrames(r, 1+r.Intn(2)), genFrames(r, 1)
+	nilP := spec.Params{Mode: "nil"}
+	priv := spec.Params{Mode: spec.Pick(r, []string{"default", "base"}), KV: genKV(r, ts)}
+	ops := []spec.Op{
+		{Kind: "enc", TS: ts, Info: in, Frames: fs, From: -1, Params: priv},
+		{Kind: "dec", TS: ts, Info: in, From: 0, Params: nilP},
+		{Kind: "enc", TS: ts, Info: in, Frames: fs2, From: -1, Params: nilP},
+		{Kind: "dec", TS: ts, Info: in, From: 2, Params: nilP},
+		{Kind: "dec", TS: ts, Info: in, From: 0, Params: spec.Params{Mode: "default"}},
+		{Kind: "enc", TS: ts, Info: in, Frames: fs2, From: -1, Params: spec.Params{Mode: "default"}},
+		{Kind: "enc", TS: ts, Info: in, Frames: fs, From: -1, Params: nilP},
+	}
+	return spec.Run{Mode: "history", Seed: seed, Tasks: []spec.Task{{Ops: ops}}, StepCap: 3e9},
+		c10Meta{Shape: "param-leak", TS: []string{ts}}
+}
+
 func genHistory(seed uint64, idx int, thorough bool) (spec.Run, c10Meta) {
 	r := spec.NewRng(seed).Child(1)
 	meta := c10Meta{}
@@ -615,7 +640,12 @@ func checkC10(o checkOpts) int {
 		longRounds = 4
 	}
 	nLong := longRounds * len(allTS)
-	N := nGen + sweepRounds*nSweep() + nLong
+	leakRounds := 2
+	if thorough {
+		leakRounds = 12
+	}
+	nLeak := leakRounds * len(allTS)
+	N := nGen + sweepRounds*nSweep() + nLong + nLeak
 	findings := loadFindings()
 	runs := make([]spec.Run, N)
 	metas := make([]c10Meta, N)
@@ -624,10 +654,12 @@ func checkC10(o checkOpts) int {
 		switch {
 		case i < nGen:
 			runs[i], metas[i] = genHistory(s, i, thorough)
-		case i < N-nLong:
+		case i < N-nLong-nLeak:
 			runs[i], metas[i] = genSweep(s, i-nGen)
+		case i < N-nLeak:
+			runs[i], metas[i] = genLongRun(s, i-(N-nLong-nLeak))
 		default:
-			runs[i], metas[i] = genLongRun(s, i-(N-nLong))
+			runs[i], metas[i] = genParamLeak(s, i-(N-nLeak))
 		}
 	}
 	results := make([]*spec.Result, N)
@@ -744,7 +776,7 @@ func checkC10(o checkOpts) int {
 		Coverage: map[string]interface{}{
 			"evaluations":               N,
 			"distinct_nontrivial":       len(distinct),
-			"rule":                      "one evaluation = one call history (2..24 operations on long-lived registry codecs, jpeg2000.Encoder/Decoder objects and reused Parameters objects, through a simulated PixelData source/sink with a seeded fault plan) executed in one process and judged frame by frame against a fresh-world reference (same frame alone, fresh process, fresh objects); distinct = distinct operation sequences; non-trivial = at least two operations sharing an object",
+			"rule":                      "one evaluation = one call history (2..24 operations on long-lived registry codecs, jpeg2000.Encoder/Decoder objects and reused Parameters objects, through a simulated PixelData source/sink with a seeded fault plan; plus the enumerated fault sweep, one 48-frame long run per codec and the enumerated settings-must-not-leak history per codec) executed in one process and judged frame by frame against a fresh-world reference (same frame alone, fresh process, fresh objects); distinct = distinct operation sequences; non-trivial = at least two operations sharing an object",
 			"samples":                   samples,
 			"histories_per_hour":        float64(N) / (histWall + refWall) * 3600,
 			"operations":                nOps,
